@@ -100,7 +100,7 @@ Qed.
 Lemma render_refused_free ly cached up o f d x y z e :
   fst (render ly cached up o f d x y z) = Err e -> snd (render ly cached up o f d x y z) = [].
 Proof.
-  unfold render. destruct (negb (f =? lfmt ly)); [reflexivity|].
+  unfold render. destruct (negb (f =? offered_format ly)); [reflexivity|].
   destruct (request_tile_coord ly up o x y z); [|reflexivity].
   destruct (negb (dimensions_ok ly d)); [reflexivity|]. cbn [fst]. discriminate.
 Qed.
@@ -114,26 +114,26 @@ Proof.
 Qed.
 
 Lemma render_invalid_format ly cached up o f d x y z :
-  f <> lfmt ly -> render ly cached up o f d x y z = (Err InvalidFormat, []).
-Proof. intros H. unfold render. destruct (f =? lfmt ly) eqn:E; [lia|reflexivity]. Qed.
+  f <> offered_format ly -> render ly cached up o f d x y z = (Err InvalidFormat, []).
+Proof. intros H. unfold render. destruct (f =? offered_format ly) eqn:E; [lia|reflexivity]. Qed.
 
 Lemma render_outside ly cached up o f d x y z :
   ~ in_matrix ly up x y z -> exists e, render ly cached up o f d x y z = (Err e, []).
 Proof.
-  intros H. unfold render. destruct (negb (f =? lfmt ly)); [eauto|].
+  intros H. unfold render. destruct (negb (f =? offered_format ly)); [eauto|].
   rewrite (request_none _ _ o _ _ _ H). eauto.
 Qed.
 
 Lemma render_invalid_dimension ly cached up o f d x y z :
   dimensions_ok ly d = false -> exists e, render ly cached up o f d x y z = (Err e, []).
 Proof.
-  intros H. unfold render. destruct (negb (f =? lfmt ly)); [eauto|].
+  intros H. unfold render. destruct (negb (f =? offered_format ly)); [eauto|].
   destruct (request_tile_coord ly up o x y z); [|eauto]. rewrite H. cbn [negb]. eauto.
 Qed.
 
 Lemma render_accepts ly cached up o d x y z :
   dimensions_ok ly d = true ->
-  (fst (render ly cached up o (lfmt ly) d x y z) = Ok <-> in_matrix ly up x y z).
+  (fst (render ly cached up o (offered_format ly) d x y z) = Ok <-> in_matrix ly up x y z).
 Proof.
   intros Hd. unfold render. rewrite Z.eqb_refl. cbn [negb]. rewrite Hd. cbn [negb]. split.
   - destruct (request_tile_coord ly up o x y z) eqn:E; [|cbn [fst]; discriminate].
@@ -164,7 +164,7 @@ Qed.
 Lemma serve_tile_shape ly cached q :
   (exists e, serve_tile ly cached q = (Err e, [])) \/
   (exists x y z f, rx q = Some x /\ ry q = Some y /\ rz q = Some z /\ is_fi (rsvc q) = false /\
-     (rfmt q = Some f \/ rfmt q = None /\ f = lfmt ly) /\
+     (rfmt q = Some f \/ rfmt q = None /\ f = offered_format ly) /\
      serve_tile ly cached q = render ly cached (svc_profiles (rsvc q)) (origin_of q) f (dims_of q) x y z) \/
   (exists x y z, rx q = Some x /\ ry q = Some y /\ rz q = Some z /\ is_fi (rsvc q) = true /\
      serve_tile ly cached q = featureinfo ly (origin_of q) q x y z).
@@ -177,7 +177,7 @@ Proof.
            | |- context [if ?b then _ else _] => destruct b; try (left; eexists; reflexivity)
            end;
     try (right; left; exists x, y, z, f; repeat split; auto; fail);
-    try (right; left; exists x, y, z, (lfmt ly); repeat split; auto; fail);
+    try (right; left; exists x, y, z, (offered_format ly); repeat split; auto; fail);
     try (right; right; exists x, y, z; repeat split; auto; fail).
 Qed.
 
@@ -203,7 +203,7 @@ Proof.
 Qed.
 
 Lemma serve_tile_invalid_format ly cached q f :
-  is_fi (rsvc q) = false -> rfmt q = Some f -> f <> lfmt ly -> exists e, serve_tile ly cached q = (Err e, []).
+  is_fi (rsvc q) = false -> rfmt q = Some f -> f <> offered_format ly -> exists e, serve_tile ly cached q = (Err e, []).
 Proof.
   intros Hfi Hf Hne.
   destruct (serve_tile_shape ly cached q) as [He|[(x & y & z & f' & _ & _ & _ & _ & Hf' & ->)|(x & y & z & _ & _ & _ & Hfi' & _)]].
@@ -301,7 +301,7 @@ Qed.
 Lemma render_inside ly cached up o f d x y z e :
   layer_wf ly -> In e (snd (render ly cached up o f d x y z)) -> effect_inside ly e.
 Proof.
-  intros Hwf. unfold render. destruct (negb (f =? lfmt ly)); [intros []|].
+  intros Hwf. unfold render. destruct (negb (f =? offered_format ly)); [intros []|].
   destruct (request_tile_coord ly up o x y z) as [c|] eqn:E; [|intros []].
   destruct (negb (dimensions_ok ly d)); [intros []|]. cbn [snd]. apply load_inside; [exact Hwf|].
   intros c' [Hc|[]]. inversion Hc; subst c'.
@@ -370,7 +370,9 @@ Qed.
 Lemma cache_image_refused_free ly cached q e :
   fst (cache_image ly cached q) = Err e -> snd (cache_image ly cached q) = [].
 Proof.
-  unfold cache_image. destruct (affected_level (lg ly) (mb q) (mw q) (mh q)); [|reflexivity].
+  unfold cache_image. destruct (negb (bbox_intersects _ (mb q))); [reflexivity|].
+  destruct ((mw q =? 0) || (mh q =? 0)); [reflexivity|].
+  destruct (affected_level (lg ly) (mb q) (mw q) (mh q)); [|reflexivity].
   destruct (affected_level_tiles (lg ly) (mb q) z) as [src nx ny tiles|]; [|reflexivity].
   destruct (over_tile_limit ly (nx * ny)); [reflexivity|].
   destruct (mtiled q && (1 <? nx * ny)); [reflexivity|].
@@ -380,7 +382,8 @@ Qed.
 Lemma cache_image_inside ly cached q e :
   layer_wf ly -> ress (lg ly) <> [] -> In e (snd (cache_image ly cached q)) -> effect_inside ly e.
 Proof.
-  intros Hwf Hne. unfold cache_image.
+  intros Hwf Hne. unfold cache_image. destruct (negb (bbox_intersects _ (mb q))); [intros []|].
+  destruct ((mw q =? 0) || (mh q =? 0)); [intros []|].
   destruct (affected_level (lg ly) (mb q) (mw q) (mh q)) as [l|] eqn:El; [|intros []].
   destruct (affected_level_tiles (lg ly) (mb q) l) as [src nx ny tiles|] eqn:Ea; [|intros []].
   destruct (over_tile_limit ly (nx * ny)); [intros []|].
@@ -396,45 +399,66 @@ Lemma cache_image_over_limit ly cached q n m :
   tile_count ly q = Some n -> lmax_tiles ly = Some m -> 0 < m <= n ->
   cache_image ly cached q = (Err TooManyTiles, []).
 Proof.
-  unfold tile_count, cache_image. destruct (affected_level (lg ly) (mb q) (mw q) (mh q)) as [l|]; [|discriminate].
+  unfold tile_count, cache_image. destruct ((mw q =? 0) || (mh q =? 0)); [discriminate|].
+  destruct (affected_level (lg ly) (mb q) (mw q) (mh q)) as [l|] eqn:El; [|discriminate].
+  assert (Hi : negb (bbox_intersects (gx0 (lg ly), gy0 (lg ly), gx1 (lg ly), gy1 (lg ly)) (mb q)) = false).
+  { unfold affected_level in El. destruct (negb (bbox_intersects _ (mb q))); [discriminate|reflexivity]. }
+  rewrite Hi.
   destruct (affected_level_tiles (lg ly) (mb q) l) as [src nx ny tiles|]; [|discriminate].
   intros E Hm Hn. inversion E; subst n. unfold over_tile_limit. rewrite Hm.
   replace (negb (m =? 0) && (m <=? nx * ny)) with true by (symmetry; lia). reflexivity.
 Qed.
 
-Lemma serve_map_refused_free mp ly cached q e :
-  fst (serve_map mp ly cached q) = Err e -> snd (serve_map mp ly cached q) = [].
+Lemma layer_map_refused_free ly cached q e :
+  fst (layer_map ly cached q) = Err e -> snd (layer_map ly cached q) = [].
 Proof.
-  unfold serve_map. destruct (over_pixel_limit mp q); [reflexivity|].
-  destruct (mtiled q && negb (mfmt q =? lfmt ly)); [reflexivity|].
+  unfold layer_map. destruct (mtiled q && negb (mfmt q =? lfmt ly)); [reflexivity|].
   destruct (mtiled q && negb ((mw q =? tw (lg ly)) && (mh q =? th (lg ly)))); [reflexivity|].
   destruct (effective_query ly q); [|reflexivity]. apply cache_image_refused_free.
 Qed.
 
-Lemma serve_map_inside mp ly cached q e :
-  layer_wf ly -> ress (lg ly) <> [] -> In e (snd (serve_map mp ly cached q)) -> effect_inside ly e.
+Lemma serve_map_refused_free mp se ly cached q e :
+  fst (serve_map mp se ly cached q) = Err e -> snd (serve_map mp se ly cached q) = [].
 Proof.
-  intros Hwf Hne. unfold serve_map. destruct (over_pixel_limit mp q); [intros []|].
-  destruct (mtiled q && negb (mfmt q =? lfmt ly)); [intros []|].
-  destruct (mtiled q && negb ((mw q =? tw (lg ly)) && (mh q =? th (lg ly)))); [intros []|].
-  destruct (effective_query ly q); [|intros []]. apply cache_image_inside; assumption.
+  unfold serve_map. destruct (over_pixel_limit mp q); [reflexivity|].
+  destruct (srs_limited se q); [|reflexivity]. apply layer_map_refused_free.
 Qed.
 
-Lemma serve_map_pixel_limit ly cached q m :
-  0 < m < mw q * mh q -> serve_map (Some m) ly cached q = (Err TooLarge, []).
+Lemma serve_map_inside mp se ly cached q e :
+  layer_wf ly -> ress (lg ly) <> [] -> In e (snd (serve_map mp se ly cached q)) -> effect_inside ly e.
+Proof.
+  intros Hwf Hne. unfold serve_map. destruct (over_pixel_limit mp q); [intros []|].
+  destruct (srs_limited se q) as [q1|]; [|intros []]. unfold layer_map.
+  destruct (mtiled q1 && negb (mfmt q1 =? lfmt ly)); [intros []|].
+  destruct (mtiled q1 && negb ((mw q1 =? tw (lg ly)) && (mh q1 =? th (lg ly)))); [intros []|].
+  destruct (effective_query ly q1); [|intros []]. apply cache_image_inside; assumption.
+Qed.
+
+Lemma serve_map_pixel_limit se ly cached q m :
+  0 < m < mw q * mh q -> serve_map (Some m) se ly cached q = (Err TooLarge, []).
 Proof.
   intros H. unfold serve_map, over_pixel_limit.
   replace (negb (m =? 0) && (m <? mw q * mh q)) with true by (symmetry; lia). reflexivity.
 Qed.
 
-Lemma serve_map_tile_limit mp ly cached q q' n m :
-  effective_query ly q = Some q' -> tile_count ly q' = Some n -> lmax_tiles ly = Some m -> 0 < m <= n ->
-  exists e, serve_map mp ly cached q = (Err e, []).
+Lemma serve_map_tile_limit mp se ly cached q q1 q' n m :
+  srs_limited se q = Some q1 -> effective_query ly q1 = Some q' -> tile_count ly q' = Some n ->
+  lmax_tiles ly = Some m -> 0 < m <= n ->
+  exists e, serve_map mp se ly cached q = (Err e, []).
 Proof.
-  intros Hq Hn Hm Hle. unfold serve_map. destruct (over_pixel_limit mp q); [eauto|].
-  destruct (mtiled q && negb (mfmt q =? lfmt ly)); [eauto|].
-  destruct (mtiled q && negb ((mw q =? tw (lg ly)) && (mh q =? th (lg ly)))); [eauto|].
+  intros Hs Hq Hn Hm Hle. unfold serve_map. destruct (over_pixel_limit mp q); [eauto|]. rewrite Hs. unfold layer_map.
+  destruct (mtiled q1 && negb (mfmt q1 =? lfmt ly)); [eauto|].
+  destruct (mtiled q1 && negb ((mw q1 =? tw (lg ly)) && (mh q1 =? th (lg ly)))); [eauto|].
   rewrite Hq. rewrite (cache_image_over_limit ly cached q' n m Hn Hm Hle). eauto.
+Qed.
+
+(* a layer on a mixed cache offers png only *)
+Lemma serve_tile_invalid_format_mixed ly cached q f :
+  lmixed ly = true -> is_fi (rsvc q) = false -> rfmt q = Some f -> f <> fmt_png ->
+  exists e, serve_tile ly cached q = (Err e, []).
+Proof.
+  intros Hm Hfi Hf Hne. apply (serve_tile_invalid_format ly cached q f Hfi Hf).
+  unfold offered_format. rewrite Hm. exact Hne.
 Qed.
 
 (* ---- boundary: the last valid row / column is accepted, the first invalid one refused *)
@@ -444,7 +468,7 @@ Lemma boundary ly cached s o d io i j z x y :
   valid_level (lg ly) (internal_level ly (svc_profiles s) z) = true ->
   let nx := fst (grid_size (lg ly) (internal_level ly (svc_profiles s) z)) in
   let ny := snd (grid_size (lg ly) (internal_level ly (svc_profiles s) z)) in
-  let ask := fun x y => serve_tile ly cached (mkReq s (Some x) (Some y) (Some z) (Some (lfmt ly)) o d true true io i j) in
+  let ask := fun x y => serve_tile ly cached (mkReq s (Some x) (Some y) (Some z) (Some (offered_format ly)) o d true true io i j) in
   0 <= x < nx -> 0 <= y < ny ->
   fst (ask x (ny - 1)) = Ok /\ fst (ask (nx - 1) y) = Ok /\ fst (ask x 0) = Ok /\ fst (ask 0 y) = Ok /\
   (exists e, ask x ny = (Err e, [])) /\ (exists e, ask nx y = (Err e, [])) /\
@@ -463,7 +487,7 @@ Qed.
 
 (* ---- non-vacuity: a concrete layer (3 levels, 5 x 3 tiles at the finest level, 2 x 2 meta tiles, one dimension) *)
 Definition ex_grid : grid := mkGrid 0 0 5120 2560 64 64 [40; 20; 10] false 23 20 4 1.
-Definition ex_layer : layer := mkLayer ex_grid 1 [(1, ([2; 3], 2))] 2 2 false false true (Some 4).
+Definition ex_layer : layer := mkLayer ex_grid 1 [(1, ([2; 3], 2))] 2 2 false false true (Some 4) false.
 Definition ex_req (s : svc) (x y z : Z) : treq := mkReq s (Some x) (Some y) (Some z) (Some 1) None [] true true true 3 4.
 
 Example ex_layer_wf : layer_wf ex_layer /\ ress (lg ex_layer) <> [].
@@ -506,7 +530,7 @@ Proof. vm_compute. reflexivity. Qed.
 (* a grid whose levels shrink by sqrt2 (every second level hidden from TMS / KML): WMTS TileMatrix 3 is level 3 of
    the grid (4 x 2 tiles: column 3 is the last one), TMS level 1 is level 2 (3 x 2 tiles), TMS level 2 does not exist *)
 Definition ex_sqrt2_grid : grid := mkGrid 0 0 5120 2560 64 64 [40; 28; 20; 14] true 23 20 4 1.
-Definition ex_sqrt2_layer : layer := mkLayer ex_sqrt2_grid 1 [] 1 1 false true true None.
+Definition ex_sqrt2_layer : layer := mkLayer ex_sqrt2_grid 1 [] 1 1 false true true None false.
 Example ex_sqrt2_levels :
   grid_sizes ex_sqrt2_grid = [(2, 1); (3, 2); (4, 2); (6, 3)] /\
   serve_tile ex_sqrt2_layer [] (ex_req WmtsRest 5 2 3) =
@@ -529,22 +553,40 @@ Definition ex_map4 : mreq := mkMap (0, 0, 1280, 1280) 128 128 1 false.
 Definition ex_map3 : mreq := mkMap (0, 0, 1920, 640) 192 64 1 false.
 Example ex_tile_limit :
   effective_query ex_layer ex_map4 = Some ex_map4 /\ tile_count ex_layer ex_map4 = Some 4 /\
-  serve_map None ex_layer [] ex_map4 = (Err TooManyTiles, []) /\
-  tile_count ex_layer ex_map3 = Some 3 /\ fst (serve_map None ex_layer [] ex_map3) = Ok /\
-  length (snd (serve_map None ex_layer [] ex_map3)) = 24%nat.
+  serve_map None None ex_layer [] ex_map4 = (Err TooManyTiles, []) /\
+  tile_count ex_layer ex_map3 = Some 3 /\ fst (serve_map None None ex_layer [] ex_map3) = Ok /\
+  length (snd (serve_map None None ex_layer [] ex_map3)) = 24%nat.
 Proof. vm_compute. repeat split; reflexivity. Qed.
 Example ex_pixel_limit :
-  serve_map (Some 12287) ex_layer [] ex_map3 = (Err TooLarge, []) /\ fst (serve_map (Some 12288) ex_layer [] ex_map3) = Ok.
+  serve_map (Some 12287) None ex_layer [] ex_map3 = (Err TooLarge, []) /\ fst (serve_map (Some 12288) None ex_layer [] ex_map3) = Ok.
 Proof. vm_compute. split; reflexivity. Qed.
 (* a request reaching over the layer extent is cut down to the extent before tiles are counted *)
 Example ex_clip :
   effective_query ex_layer (mkMap (-640, -640, 640, 640) 128 128 1 false) = Some (mkMap (0, 0, 640, 640) 64 64 1 false).
 Proof. vm_compute. reflexivity. Qed.
 
+(* a layer on a mixed cache (cache format id 3): png is served, jpeg and "mixed" itself are refused *)
+Definition ex_mixed_layer : layer := mkLayer ex_grid 3 [] 1 1 false false true None true.
+Example ex_mixed :
+  fst (serve_tile ex_mixed_layer [] (ex_req KML 0 0 0)) = Ok /\
+  serve_tile ex_mixed_layer [] (mkReq KML (Some 0) (Some 0) (Some 0) (Some 2) None [] true true true 0 0) = (Err InvalidFormat, []) /\
+  serve_tile ex_mixed_layer [] (mkReq WmtsRest (Some 0) (Some 0) (Some 0) (Some 3) None [] true true true 0 0) = (Err InvalidFormat, []).
+Proof. vm_compute. repeat split; reflexivity. Qed.
+
+(* an SRS extent (1000, 500, 3000, 2000): an oversized request is refused on its requested size although only a small
+   part lies inside the extent; a request inside the limit is cut down to the extent (and is no longer tiled);
+   a request that keeps less than one pixel inside ends in the uncaught division by zero (answered 500) *)
+Example ex_srs_extent :
+  serve_map (Some 10000) (Some (1000, 500, 3000, 2000)) ex_layer [] (mkMap (-9000, -9500, 1100, 600) 101 100 1 false) = (Err TooLarge, []) /\
+  srs_limited (Some (1000, 500, 3000, 2000)) (mkMap (0, 0, 2000, 1000) 100 50 1 true) = Some (mkMap (1000, 500, 2000, 1000) 50 25 1 false) /\
+  srs_limited (Some (1000, 500, 3000, 2000)) (mkMap (4000, 0, 5000, 1000) 100 50 1 false) = None /\
+  serve_map (Some 10000) (Some (1000, 500, 3000, 2000)) ex_layer [] (mkMap (-9000, -9500, 1100, 600) 100 100 1 false) = (Err Internal, []).
+Proof. vm_compute. repeat split; reflexivity. Qed.
+
 (* WMTS GetFeatureInfo does not compare FORMAT with the layer format (behaviour pinned by the test-suite of mapproxy):
    an upstream request is made.  Dimension values are validated like GetTile does. *)
 Lemma featureinfo_format_unchecked_witness :
-  exists ly cached q f, is_fi (rsvc q) = true /\ rfmt q = Some f /\ f <> lfmt ly /\
+  exists ly cached q f, is_fi (rsvc q) = true /\ rfmt q = Some f /\ f <> offered_format ly /\
     fst (serve_tile ly cached q) = Ok /\ snd (serve_tile ly cached q) <> [].
 Proof.
   exists ex_layer, [], (mkReq WmtsKvpFI (Some 0) (Some 0) (Some 0) (Some 2) None [(1, 3)] true true true 3 4), 2.
